@@ -136,16 +136,17 @@ func (r *runner) run(ctx context.Context, isStream bool, input any, opts ...Opti
 	tm := r.initTaskManager(runWrapper, opts...)
 	maxSteps := r.options.maxRunSteps
 
+	// a step limit designated to a nested graph is that graph's (extractOption hands it on), not this one's
 	if r.dag {
 		for i := range opts {
-			if opts[i].maxRunSteps > 0 {
+			if opts[i].maxRunSteps > 0 && len(opts[i].paths) == 0 {
 				return nil, newGraphRunError(fmt.Errorf("cannot set max run steps in dag"))
 			}
 		}
 	} else {
 		// Update maxSteps if provided in options.
 		for i := range opts {
-			if opts[i].maxRunSteps > 0 {
+			if opts[i].maxRunSteps > 0 && len(opts[i].paths) == 0 {
 				maxSteps = opts[i].maxRunSteps
 			}
 		}
